@@ -45,6 +45,7 @@ def setup(rep, tier):
     rep.minimum('R16.7', 2)
     rep.minimum('R16.8', 8)
     rep.minimum('R16.9', 1)
+    rep.minimum('R16.10', 8)
 
 
 def _pos_key(f):
@@ -685,7 +686,39 @@ def r16_9(rep, prog):
     return n
 
 
+# ------------------------------------------------------------------ R16.10
+def r16_10(rep, prog):
+    """the extension parsers walk bytes chosen by whoever made the packet: none of them may recurse, or the nesting depth -
+    and with it the stack use - is chosen by the input (a run of `repeat these extensions` indicators nests one call per
+    byte unless the compiler happens to turn the tail call into a jump)."""
+    fs = [f for f in prog.functions_all if f.file.endswith('src/extensions.c')]
+    names = {f.name: f for f in fs}
+    calls = {f.name: {sx.callee_name(c) for c in f.calls() if sx.callee_name(c) in names} for f in fs}
+    n = 0
+    for f in fs:
+        n += 1
+        # reachability from f back to f inside the file
+        seen, work = set(), list(calls[f.name])
+        while work:
+            x = work.pop()
+            if x in seen:
+                continue
+            seen.add(x)
+            work += list(calls.get(x, ()))
+        inst = '%s:%s does not recurse' % (prog.config, f.name)
+        if f.name in seen:
+            site = [c for c in f.calls() if sx.callee_name(c) == f.name] or [c for c in f.calls() if sx.callee_name(c) in seen]
+            rep.violated('R16.10', inst, '%s:%s' % (f.file, sx.line(site[0]) if site else f.line), 'calls itself%s: the recursion depth is one level per input byte of a suitable pattern' % ('' if any(sx.callee_name(c) == f.name for c in f.calls()) else ' through %s' % sorted(seen & set(calls[f.name]))),
+                         key=f.name + ':recursion')
+        else:
+            rep.holds('R16.10', inst, f.where(), None)
+    if n < 8:
+        rep.unresolved('R16.10', 'only %d functions of src/extensions.c found' % n)
+    return n
+
+
 def check(rep, prog, tier):
+    r16_10(rep, prog)
     r16_9(rep, prog)
     from . import c07
     c07.r07_5(_Renamed(rep, 'R16.7'), prog)
